@@ -530,6 +530,14 @@ def one_case(case, root, out, want_model, order, m=None):
         out.fail("load_files did not terminate (watchdog)", case, "runaway", None, key="nontermination")
         return None
     oracle_origins(case, m, r, out)
+    if not any(sh.get("col_offset") for f in case["files"] for sh in f["sheets"]):
+        # "for every loaded input set": the set must load as C16 says (the reachable files' tables are there to
+        # have origins at all) — the C16 oracle on the same run
+        o16 = Outcome()
+        c16.oracle(case, m, impl, o16)
+        for f in o16.failures[:1]:
+            out.fail("the input set is not loaded as it should be, so its tables get no origin: " + f["what"],
+                     case, f["observed"], f["expected"], key="load:" + f["key"])
     tables = [b for bt, b in r.blocks if bt == BlockType.TABLE]
     try:
         roots = make_location_trees(tables)
